@@ -128,8 +128,50 @@ impl Prop for C05 {
         ]
     }
     fn extra(&self, tier: Tier, seed: u64, ev: &mut Extra) {
-        // real threads, real timeouts: a few graphs in parallel (each run costs 0.1-1 s of waits)
         use proptest::strategy::{Strategy, ValueTree};
+        // stock PCT scheduler (depth 1-3) over tiny end-of-stream graphs
+        {
+            let n = tier.pick(1_500, 60_000);
+            let mut runner = crate::engine::make_runner(seed, 991);
+            let strat = tiny_recipe_strategy();
+            let mut fails = 0;
+            for i in 0..n {
+                let Ok(t) = strat.new_tree(&mut runner) else { continue };
+                let r = t.current();
+                let mut a = build(&r, None);
+                let Ok(want) = reference_run(&mut a) else { continue };
+                drop(a);
+                let out: Res = Arc::new(Mutex::new(None));
+                let (r2, o2) = (r.clone(), out.clone());
+                let depth = 1 + (i % 3) as usize;
+                let ex = explore_pct(seed.wrapping_mul(31).wrapping_add(i), depth, 200_000, move || run_mt(&r2, o2.clone()));
+                ev.evaluations += 1;
+                let cj = serde_json::to_value(&C05Case { recipe: r.clone(), decisions: vec![] }).unwrap();
+                ev.nontrivial_hashes.insert(hash_json(&json!({"pct": i, "case": cj})));
+                let msg = if ex.deadlock {
+                    Some("deadlock under PCT".to_string())
+                } else if ex.step_bound_hit {
+                    ev.inconclusive += 1;
+                    None
+                } else if let Some(pi) = &ex.panic {
+                    Some(format!("panic at {}: {}", pi.loc, pi.msg))
+                } else {
+                    match out.lock().unwrap().take() {
+                        Some(Ok(got)) => diff_sinks(&got, &want),
+                        Some(Err(e)) => Some(format!("run() returned an error: {e}")),
+                        None => Some("run() did not return".to_string()),
+                    }
+                };
+                if let Some(m) = msg {
+                    fails += 1;
+                    if fails <= 3 {
+                        ev.failures.push((Failure { sig: "C05/pct/differs-from-reference".into(), msg: format!("PCT depth {depth}: {m}") }, cj));
+                    }
+                }
+            }
+            ev.notes.insert("pct_executions".into(), json!(n));
+        }
+        // real threads, real timeouts: a few graphs in parallel (each run costs 0.1-1 s of waits)
         let n = tier.pick(16, 96) as usize;
         let mut runner = crate::engine::make_runner(seed, 777);
         let strat = recipe_strategy(12_000);
